@@ -1417,14 +1417,20 @@ func (d *stat) shapeCandidateFinalises() {
 		d.finalizeAndNotify(cand)
 	}}
 	how := ""
-	switch d.rng.Intn(3) {
-	case 0:
-		sc.pred, how = func(verb string, obj any) bool { _, ok := obj.(*corev1.Node); return ok && verb == "patch" }, "at the taint patch"
-	case 1:
+	isTaintPatch := func(verb string, obj any) bool { _, ok := obj.(*corev1.Node); return ok && verb == "patch" }
+	switch d.rng.Intn(4) {
+	case 0, 1:
+		sc.pred, how = isTaintPatch, "at the taint patch"
+	case 2:
+		seenPatch := false
 		sc.pred, how = func(verb string, obj any) bool {
-			nc, ok := obj.(*v1.NodeClaim)
-			return ok && verb == "get" && nc != nil
-		}, "at the first NodeClaim read"
+			if isTaintPatch(verb, obj) {
+				seenPatch = true
+				return false
+			}
+			_, ok := obj.(*v1.NodeClaim)
+			return ok && verb == "get" && seenPatch
+		}, "at markDisrupted's NodeClaim read"
 	default:
 		sc.at = d.rng.Intn(16)
 		how = fmt.Sprintf("at hooked call %d", sc.at)
